@@ -182,14 +182,19 @@ inductive PkReq where
   | none | key (k : Nat) | bad
   deriving DecidableEq, Repr, Inhabited
 
+/-- The `MaxBalance` limit check of `RequestMintQuote` (the addition is Go's wrapping `uint64` addition). -/
+def checkMaxBalance (cx : Cx) (amount : UInt64) : PM Unit :=
+  if cx.cfg.maxBalance > 0 then do
+    let balance ← totalBalance
+    failIf (balance + amount > cx.cfg.maxBalance) eMintingDisabled
+  else pure ()
+
 /-- `Mint.RequestMintQuote`; `qid` is the id the new quote gets (creation order). -/
 def requestMintQuote (cx : Cx) (qid : Nat) (amount : UInt64) (unitSat : Bool) (pk : PkReq) : PM MintQ := do
   failIf (!unitSat) (11005, "unit-not-supported")
   failIf (pk == .bad) (10000, "bad-pubkey")
   failIf (cx.cfg.maxMint > 0 && amount > cx.cfg.maxMint) eMintAmountExceeded
-  if cx.cfg.maxBalance > 0 then
-    let balance ← totalBalance
-    failIf (balance + amount > cx.cfg.maxBalance) eMintingDisabled
+  checkMaxBalance cx amount
   match ← eff (.lnCreateInvoice amount) with
   | none => throw (2, "ln")
   | some h =>
@@ -298,34 +303,35 @@ inductive InvReq where
 
 def ceilSat (msat : UInt64) : UInt64 := (msat + 999) / 1000
 
+/-- The amount logic of `RequestMeltQuote`: (isMpp, amountMsat, quoteAmount) or the refusal. -/
+def meltQuotePlan (cfg : Cfg) (msat : UInt64) (mpp : Option UInt64) (isInternal : Bool) : Except E (Bool × UInt64 × UInt64) :=
+  match mpp with
+  | none => .ok (false, 0, ceilSat msat)
+  | some m =>
+    if cfg.mpp then
+      if isInternal then .error (20009, "mpp-internal")
+      else if m ≥ msat then .error (20009, "mpp-not-less")
+      else .ok (true, m, ceilSat m)
+    else .error (20009, "mpp-unsupported")
+
+/-- Quotes that can be settled internally carry no fee reserve. -/
+def reserveFor (internal : Bool) (fee0 : UInt64) : UInt64 := if internal then 0 else fee0
+
 /-- `Mint.RequestMeltQuote`; `msatOf` is what `decodepay` reads from the invoice. -/
 def requestMeltQuote (cx : Cx) (qid : Nat) (inv : InvReq) (msatOf : Nat → UInt64) (unitSat : Bool) (mpp : Option UInt64) : PM MeltQ := do
   failIf (!unitSat) (11005, "unit-not-supported")
   match inv with
   | .bad => throw (20009, "bad-invoice")
   | .inv h =>
-    let msat := msatOf h
-    failIf (msat == 0) (20009, "invoice-no-amount")
-    let invoiceSat := ceilSat msat
-    let isInternal := match ← eff (.getMintQuoteByHash h) with
-      | .ok _ => true
-      | .error _ => false
-    let (isMpp, amountMsat, quoteAmount) ← (match mpp with
-      | none => pure (false, (0 : UInt64), invoiceSat)
-      | some m =>
-        if cx.cfg.mpp then
-          if isInternal then throw (20009, "mpp-internal")
-          else if m ≥ msat then throw (20009, "mpp-not-less")
-          else pure (true, m, ceilSat m)
-        else throw (20009, "mpp-unsupported") : PM (Bool × UInt64 × UInt64))
-    failIf (cx.cfg.maxMelt > 0 && quoteAmount > cx.cfg.maxMelt) eMeltAmountExceeded
-    match ← eff (.getMeltQuoteByReq h) with
-    | .ok _ => throw eMeltQuoteExists
-    | .error _ => pure ()
-    let fee0 ← eff (.lnFeeReserve quoteAmount)
-    let fee := if isInternal then 0 else fee0
-    let q : MeltQ := { id := qid, inv := h, hash := h, amount := quoteAmount, feeReserve := fee, state := .unpaid,
-                       preimage := 0, isMpp := isMpp, amountMsat := amountMsat }
+    failIf (msatOf h == 0) (20009, "invoice-no-amount")
+    let mq ← eff (.getMintQuoteByHash h)
+    let plan ← liftE (meltQuotePlan cx.cfg (msatOf h) mpp mq.toBool)
+    failIf (cx.cfg.maxMelt > 0 && plan.2.2 > cx.cfg.maxMelt) eMeltAmountExceeded
+    let ex ← eff (.getMeltQuoteByReq h)
+    failIf (ex.toBool) eMeltQuoteExists
+    let fee0 ← eff (.lnFeeReserve plan.2.2)
+    let q : MeltQ := { id := qid, inv := h, hash := h, amount := plan.2.2, feeReserve := reserveFor mq.toBool fee0,
+                       state := .unpaid, preimage := 0, isMpp := plan.1, amountMsat := plan.2.1 }
     dbTry (.saveMeltQuote q)
     pure q
 
@@ -364,6 +370,47 @@ def settleProofs (ps : List Proof) : PM Unit := do
   dbTry (.removePending (ps.map (·.secret)))
   dbTry (.saveProofs (ps.map Proof.row))
 
+/-- `MeltTokens`, internal settlement branch (`settleQuotesInternally` + marking the inputs spent). -/
+def meltInternal (q : MeltQ) (ps : List Proof) (mq : MintQ) : PM MeltQ := do
+  match ← eff (.lnInvoiceStatus mq.hash) with
+  | none =>
+    -- F15: nothing was settled; set the quote back to unpaid and release the inputs (errors only logged)
+    let _ ← eff (.updateMeltQuote q.id 0 .unpaid)
+    let _ ← eff (.removePending (ps.map (·.secret)))
+    throw (2, "ln")
+  | some _ =>
+    dbTry (.updateMeltQuote q.id (mq.hash + 1) .paid)
+    dbTry (.updateMintQuoteState mq.id .paid)
+    dbTry (.removePending (ps.map (·.secret)))
+    dbTry (.saveProofs (ps.map Proof.row))
+    pure { q with state := .paid, preimage := mq.hash + 1 }
+
+/-- `MeltTokens`, the switch on the payment answer `a` (incl. the extra status check after a failure). -/
+def meltAfterPay (q : MeltQ) (ps : List Proof) (a : LnAns) : PM MeltQ := do
+  match a with
+  | .succ =>
+    settleProofs ps
+    dbTry (.updateMeltQuote q.id (q.hash + 1) .paid)
+    pure { q with state := .paid, preimage := q.hash + 1 }
+  | .pending => pure q
+  | _ =>
+    -- Failed (or error): extra status check
+    let st ← eff (.lnOutgoingStatus q.hash)
+    match st with
+    | .notfound | .notfoundGrpc =>
+      dbTry (.updateMeltQuote q.id 0 .unpaid)
+      dbTry (.removePending (ps.map (·.secret)))
+      pure { q with state := .unpaid }
+    | .failed =>
+      dbTry (.updateMeltQuote q.id 0 .unpaid)
+      dbTry (.removePending (ps.map (·.secret)))
+      pure { q with state := .unpaid }
+    | .succ =>
+      settleProofs ps
+      dbTry (.updateMeltQuote q.id (q.hash + 1) .paid)
+      pure { q with state := .paid, preimage := q.hash + 1 }
+    | _ => pure q
+
 /-- `Mint.MeltTokens`. -/
 def meltTokens (cx : Cx) (qid : Int) (ps : List Proof) : PM MeltQ := do
   let proofsAmount := amountWrap (ps.map (·.amount))
@@ -380,42 +427,11 @@ def meltTokens (cx : Cx) (qid : Int) (ps : List Proof) : PM MeltQ := do
     dbTry (.updateMeltQuote q.id 0 .pending)
     let q := { q with state := .pending }
     match ← eff (.getMintQuoteByHash q.hash) with
-    | .ok mq =>
-      -- settleQuotesInternally
-      match ← eff (.lnInvoiceStatus mq.hash) with
-      | none => throw (2, "ln")
-      | some _ =>
-        dbTry (.updateMeltQuote q.id (mq.hash + 1) .paid)
-        dbTry (.updateMintQuoteState mq.id .paid)
-        dbTry (.removePending (ps.map (·.secret)))
-        dbTry (.saveProofs (ps.map Proof.row))
-        pure { q with state := .paid, preimage := mq.hash + 1 }
+    | .ok mq => meltInternal q ps mq
     | .error _ =>
       let a ← if q.isMpp then eff (.lnPayPartial q.inv q.amountMsat q.feeReserve)
                else eff (.lnSendPayment q.inv q.feeReserve)
-      match a with
-      | .succ =>
-        settleProofs ps
-        dbTry (.updateMeltQuote q.id (q.hash + 1) .paid)
-        pure { q with state := .paid, preimage := q.hash + 1 }
-      | .pending => pure q
-      | _ =>
-        -- Failed (or error): extra status check
-        let st ← eff (.lnOutgoingStatus q.hash)
-        match st with
-        | .notfound | .notfoundGrpc =>
-          dbTry (.updateMeltQuote q.id 0 .unpaid)
-          dbTry (.removePending (ps.map (·.secret)))
-          pure { q with state := .unpaid }
-        | .failed =>
-          dbTry (.updateMeltQuote q.id 0 .unpaid)
-          dbTry (.removePending (ps.map (·.secret)))
-          pure { q with state := .unpaid }
-        | .succ =>
-          settleProofs ps
-          dbTry (.updateMeltQuote q.id (q.hash + 1) .paid)
-          pure { q with state := .paid, preimage := q.hash + 1 }
-        | _ => pure q
+      meltAfterPay q ps a
 
 /-! ## State check / restore / balance -/
 
@@ -465,19 +481,26 @@ structure Balance where
   disabled : Bool
   deriving Repr
 
+/-- A storage call made by a public accessor that returns the raw (non-cashu) error. -/
+def rawTry {β : Type} (e : Eff (DbRes β)) : PM β := do
+  match ← eff e with
+  | .ok v => pure v
+  | .error _ => throw (0, "raw")
+
+/-- `TotalBalance` called from outside a request handler: its error is returned raw. -/
+def rawBalance : PM UInt64 := do
+  match ← ExceptT.lift (totalBalance.run) with
+  | .ok v => pure v
+  | .error _ => throw (0, "raw")
+
+/-- The balance query of the harness: IssuedEcash, RedeemedEcash, TotalBalance, RetrieveMintInfo. -/
 def balanceOp (cx : Cx) : PM Balance := do
-  let issued ← (do match ← eff .getIssued with | .ok v => pure v | .error _ => throw (0, "raw") : PM _)
-  let redeemed ← (do match ← eff .getRedeemed with | .ok v => pure v | .error _ => throw (0, "raw") : PM _)
-  let total ← (do
-    match ← ExceptT.lift (totalBalance.run) with
-    | .ok v => pure v
-    | .error _ => throw (0, "raw") : PM UInt64)
+  let issued ← rawTry .getIssued
+  let redeemed ← rawTry .getRedeemed
+  let total ← rawBalance
   -- RetrieveMintInfo
   let _ ← eff .getSeed
-  let bal ← (do
-    match ← ExceptT.lift (totalBalance.run) with
-    | .ok v => pure v
-    | .error _ => throw (0, "raw") : PM UInt64)
+  let bal ← rawBalance
   pure { issued := issued, redeemed := redeemed, total := total,
          disabled := cx.cfg.maxBalance > 0 && bal ≥ cx.cfg.maxBalance }
 
@@ -526,7 +549,7 @@ inductive Op where
   | mint (q : Int) (outs : List BMsg) (sig : QSig)
   | swap (ps : List Proof) (outs : List BMsg) (outputsVerdict : Option E)
   | meltQuote (inv : InvReq) (unitSat : Bool) (mpp : Option UInt64)
-  | melt (q : Int) (ps : List Proof) (script : List LnAns)
+  | melt (q : Int) (ps : List Proof) (script : List LnAns) (lnFail : Bool)
   | meltState (q : Int) (script : List LnAns)
   | checkState (ys : List YRef) (script : List LnAns)
   | restore (bs : List Nat)
@@ -595,8 +618,9 @@ def applyOp (s : Sess) : Op → Sess × Res
     match r with
     | .ok _ => ({ s1 with w := { s1.w with nextMeltQ := qid + 1 } }, .meltQuote r)
     | .error _ => (s1, .meltQuote r)
-  | .melt q ps script =>
-    let (s1, r) := s.runPM (meltTokens (cxOf s) q ps) script
+  | .melt q ps script lnFail =>
+    let s0 := { s with w := { s.w with ln := { s.w.ln with failInvoiceStatus := if lnFail then 1 else 0 } } }
+    let (s1, r) := s0.runPM (meltTokens (cxOf s) q ps) script
     (s1, .melt r)
   | .meltState q script =>
     let (s1, r) := s.runPM (getMeltQuoteState q) script
